@@ -34,6 +34,7 @@ class OdeStub(StubSPI):
         self.e = e
         self.drift = drift
         self.alias = alias
+        self.accelerating = False
         self.integrations = 0
 
     def ode(self, f, jac=None):
@@ -77,7 +78,9 @@ class _O:
         self.n += 1
         self.o.integrations += 1
         if self.o.drift is not None:
-            y = [v + c * self.n for v, c in zip(self.y0, self.o.drift)]
+            # constant drift, or an accelerating one (the change grows from interval to interval)
+            k_ = self.n * self.n if self.o.accelerating else self.n
+            y = [v + c * k_ for v, c in zip(self.y0, self.o.drift)]
         else:
             f = 1
             for _ in range(self.n):
@@ -101,13 +104,14 @@ class Steady(Scenario):
     max_decisions = 5000
     timeout_ms = 15000
 
-    def __init__(self, dim, rel, user_y0, earlier, alias, K, e_conc=None, drift=False, via="simulator", zero_start=False):
+    def __init__(self, dim, rel, user_y0, earlier, alias, K, e_conc=None, drift=False, via="simulator", zero_start=False, accelerating=False):
+        self.accelerating = accelerating
         self.dim, self.rel, self.user_y0, self.earlier, self.alias, self.K = dim, rel, user_y0, earlier, alias, K
         self.e_conc, self.drift, self.via = e_conc, drift, via
         self.zero_start = zero_start  # relative norm with an exactly empty pool at the start
         self.key = (f"C15/{'drift' if drift else 'contract'}/d{dim}/{'rel' if rel else 'abs'}/{'y0user' if user_y0 else 'y0default'}/"
                     f"{'after-sim' if earlier else 'fresh'}/{'aliased' if alias else 'fresh-array'}/K{K}"
-                    f"{'' if e_conc is None else '/e' + str(e_conc)}/{via}{'/zero-start' if zero_start else ''}")
+                    f"{'' if e_conc is None else '/e' + str(e_conc)}/{via}{'/zero-start' if zero_start else ''}{'/accelerating' if accelerating else ''}")
 
     def build(self, ctx):
         from mxlpy import Model
@@ -159,6 +163,7 @@ class Steady(Scenario):
                     ctx.assume(ci > 0)
                     ctx.assume(ci >= tol * (v + 1000 * ci))  # relative change stays above the (concrete) tolerance for all 1000 steps
             stub = OdeStub(FlowModel("influx"), ctx.symbolic, ystar=ystar, drift=c, alias=self.alias)
+            stub.accelerating = self.accelerating
         else:
             e = ctx.real("e") if self.e_conc is None else self.e_conc
             if self.e_conc is None:
@@ -279,4 +284,6 @@ def scenarios(tier, seed):
             for earlier in (False, True):
                 scs.append(Steady(1, rel, False, earlier, alias, 0, drift=True))
         scs.append(Steady(1, False, False, False, alias, 0, drift=True, via="worker"))
+        scs.append(Steady(1, False, False, False, alias, 0, drift=True, accelerating=True))
+        scs.append(Steady(1, False, True, True, alias, 0, drift=True, accelerating=True))
     return scs
